@@ -193,6 +193,9 @@ def plan_C10(ck):
 
 def plan_C12(ck):
     q = ck.tier == "quick"
+    ck.model("SPLSweep-4nodes" if q else "SPLSweep-5nodes", "SPLSweep.tla", "MCSPLSweep_quick.cfg" if q else "MCSPLSweep_5.cfg",
+             workers=16, timeout=3000, xmx="16g",
+             note="L2 bottom-up sweep {terminal, lake, solved, limited} with the solver abstracted to ANY outcome: every final state satisfies FlowContract!SplTerminalsZero / SplLakesZero / SplNoReversal, on every DAG with <= 2 receivers per node")
     ck.traces(cs.spl_contract_cases(ck.seed + 12, 150 if q else 4000, 5 if q else 7, "C12"), ["C12"], tag="c12",
               nontrivial=cf.nontrivial_world, sample_events=("Spl",))
 
@@ -255,12 +258,20 @@ def plan_C14(ck):
 GRID_SPEC = ("GridTrace.tla", "GridTrace.cfg")
 
 
+def grid_models(ck):
+    ck.model("Grid-spec-theorems", "MCGrid.tla", "MCGrid_quick.cfg" if ck.tier == "quick" else "MCGrid_4.cfg", workers=16, timeout=3000,
+             coverage=False,
+             note="spec-level theorems on every raster (3 connectivities x 4^4 border combinations x shapes x spacings) and profile descriptor of the bounded family: neighbour relation symmetric, degree by position, one-step distances, no long jumps without looped borders; status laws (corner precedence), filtered iteration partitions the nodes in increasing order, accepted iff looped borders are paired")
+
+
 def plan_C07(ck):
+    grid_models(ck)
     ck.traces(cg.neighbourhood_cases(ck.seed + 7, ck.tier, "C07"), ["C07"], tag="c07", spec=GRID_SPEC, sample_events=("Q",))
     ck.ev.cov["exhaustive"] = True
 
 
 def plan_C17(ck):
+    grid_models(ck)
     ck.traces(cg.status_cases(ck.seed + 17, ck.tier, "C17"), ["C17"], tag="c17", spec=GRID_SPEC, sample_events=("GridNew",))
     ck.traces(cg.base_level_cases(ck.seed + 117, 60 if ck.tier == "quick" else 1500, "C17bl"), ["C17"], tag="c17bl",
               sample_events=("New",))
